@@ -58,6 +58,14 @@ CHECKS = {
              "dotted path, deprecated import key, unconfigured). The call log of the instrumented functions must equal, as a multiset, the non-null occurrences of the "
              "scalar in the response (parse) and in the caller's arguments (serialize); attributes must be parse(raw) of their own token and wire values serialize(value).",
         note=GEN_NOTE, design="4/C07"),
+    "C10": dict(
+        category="exploration",
+        technique="runtime monitoring: differential observation of real generator subprocesses under varied PYTHONHASHSEED, file creation orders/mtimes and pre-existing target; sha256 comparison of every produced file",
+        text="The same inputs are generated by real `python -m ariadne_codegen` subprocesses under 5 (thorough: 13) hash seeds, as directories whose files are created in three "
+             "shuffled orders, and over an existing generation; every produced file must be byte-identical within each factor group. Both strategies and the plugin sets "
+             "that collect names in sets are covered.",
+        note="Trusted: sha256. Hash seeds and creation orders are sampled, not enumerated; inputs are biased to the set-iteration sites named in the anchors.",
+        design="4/C10"),
     "C11": dict(
         category="exploration",
         technique="runtime monitoring: transport-boundary capture + reference multipart/JSON oracle; schedule stress (asyncio.gather with seeded awaits, 8 threads at 1us switch interval, sys.monitoring LINE yield injection) with per-call unique ids",
